@@ -153,6 +153,26 @@ COMMON_ASSUME = ["TLC's evaluator and the CommunityModules Java overrides (Bitwi
                  "my transcription of the published algorithms into TLA+ (self-checked against known-answer vectors in spec/mc/MC_Vectors)"]
 
 
+def panic_candidates(S, kinds, n, label):
+    """Value properties say what every call returns; a call that panics returns nothing.  The native panic scan of C14
+    (counter seeds built three ways and driven for a few outputs) proposes seeds; each hit becomes an ordinary case."""
+    binp = vlib.build_harness()
+    wd = vlib.workdir("scan-" + label)
+    sp, tp = os.path.join(wd, "scan.s"), os.path.join(wd, "scan.t")
+    vlib.write_ndjson(sp, [{"op": "reset"}] + [{"op": "panic_scan", "kind": kd, "n": n, "seed_len": corpora.SEEDLEN[kd], "outputs": 4} for kd in kinds])
+    vlib.drive(binp, sp, tp, timeout=3000)
+    found = 0
+    for e in vlib.read_ndjson(tp):
+        for f in e.get("found", []) if e.get("e") == "panic_scan" else []:
+            kd = e["kind"]
+            first = {"op": "seed_from_u64", "g": 1, "kind": kd, "x": f["x"]} if f["stage"] == "seed_from_u64" else {"op": "from_seed", "g": 1, "kind": kd, "seed": f["seed"]}
+            S.case("%s %s k=%d (found by the panic scan)" % (kd, f["stage"], f["k"]), [first, {"op": corpora.native_op(kd), "g": 1, "n": 8}])
+            found += 1
+    import shutil
+    shutil.rmtree(wd, ignore_errors=True)
+    return found
+
+
 def check_C01(tier, seed):
     import random
     S = corpora.c01_corpus(seed, tier)
@@ -169,6 +189,7 @@ def check_C01(tier, seed):
             ops += [{"op": "from_seed", "g": 1, "kind": kind, "seed": sd}, {"op": nat, "g": 1, "n": 3}]
         if ops:
             S.case("%s states stepping onto structured states" % kind, ops)
+    panic_candidates(S, list(corpora.XO) + ["SplitMix64"], 4000 if tier == "quick" else 40000, "C01")
     return trace_check("C01", tier, seed, S, "Trace_Alg.tla", "Trace_Alg.cfg", release_every=3,
                        rule="for each of the 14 linear generators: every unit-bit seed (complete GF(2) basis of the state space and of the seed decoding) stepped twice; structured scrambler classes (carry chains of every length, multiplier wrap, all-ones, high bits); random seeds x K consecutive native outputs with the full state image compared after every call; SplitMix64 counters around the 2^64 wrap with both finalizers. One TLC state per recorded event; distinct = distinct events",
                        assumptions=COMMON_ASSUME + ["agreement on a basis extends to all states for the GF(2)-linear engine only; the non-linear output scramblers are covered by structured classes and random states, a bound not a proof"])
@@ -176,6 +197,7 @@ def check_C01(tier, seed):
 
 def check_C04(tier, seed):
     S = corpora.c04_corpus(seed, tier)
+    panic_candidates(S, ["XorShiftRng"], 20000 if tier == "quick" else 200000, "C04")
     return trace_check("C04", tier, seed, S, "Trace_Alg.tla", "Trace_Alg.cfg", release_every=3,
                        rule="all 128 unit-bit seeds of XorShiftRng (complete transition matrix and seed word order) stepped 5 times, structured states, random seeds x K consecutive next_u32 with state image compared after every call",
                        assumptions=COMMON_ASSUME + ["xor128 is GF(2)-linear with identity output: agreement on a basis plus linearity is agreement on all 2^128 states"])
@@ -454,6 +476,7 @@ def check_C14(tier, seed):
                             ("C14-api", corpora.c14_api_corpus(seed, tier), "Trace_Stream", None),
                             ("C14-alg", corpora.c14_alg_corpus(seed, tier), "Trace_Alg", None),
                             ("C14-far", corpora.far_corpus(seed, tier), "Trace_Pair", None),
+                            ("C14-ctor", corpora.c14_ctor_corpus(seed, tier), "Trace_Alg", step_weight),
                             ("C14-tt", corpora.c13_corpus(seed, "quick", [{"mean": m, "zr": False, "zd": False, "back": 0, "mod": 0, "stuck": 0}
                                                                           for m in sorted(set(list(range(0, 41)) + [v for k in range(6, 34) for v in ((1 << k) - 1, 1 << k, (1 << k) + 1)]))]),
                              "Trace_Jitter", jit_weight)):
@@ -641,6 +664,8 @@ def check_C16(tier, seed):
     # a fresh collection reads the timer at least `rounds` times however long the clock stands still in between
     corpora.stuck_run_cases(S, rng, (66, 70, 260), 230)
     corpora.stuck_run_cases(S, rng, (70, 1030), 2)
+    for r in (127, 128, 254, 255):        # the extreme round counts (u8)
+        corpora.stuck_run_cases(S, rng, (2,), r)
     rc = trace_check("C16", tier, seed, S, "Trace_Jitter.tla", "Trace_Jitter.cfg", weight=jit_weight,
                      rule="timer scripts constructed so that the first collected value is 0, all ones or has a zero / all-ones half are run through the same discipline. TLC explores the hand-out machine JitterApi (collections as tokens, <=3 instances incl. clone of clone, all interleavings of next_u32/next_u64/fill_bytes(n)/clone) and checks AtMostOnce, PendingIsHighHalfOfOwnValue and FreshOrPendingHalf; a negative control (Clone copying the flag) must fail; every edge of the projected graph (alive, pending flags) is executed on real JitterRng instances with their own scripted timer cursors, and Trace_Jitter, which executes the same plans on concrete pools, validates values, flags and readings consumed. distinct = distinct recorded events",
                      assumptions=JIT_ASSUME + ["fill_bytes(n in 1..4) with a half pending is left open between C05's and C16's wording: both plans are admitted"],
@@ -885,6 +910,7 @@ def step_weight(evs):
 
 def check_C02(tier, seed):
     S = corpora.block_alg_corpus("Hc128Rng", seed, tier, 32, 2200, 2)
+    panic_candidates(S, ["Hc128Rng"], 8000 if tier == "quick" else 60000, "C02")
     return trace_check("C02", tier, seed, S, "Trace_Alg.tla", "Trace_Alg.cfg", weight=step_weight, timeout=3400, release_every=6,
                        extra_runs=[("C02-veryfar", corpora.very_far_corpus(seed), "Trace_Pair", None, "o3chk")],
                        rule="Hc128Rng::from_seed + next_u32 on unit-bit seeds (every key and IV bit), structured seeds, random seeds x 32..96 words, and long runs of 2200 consecutive words (P phase, Q phase, every 16-word refill, the 1024-step wrap and into the second cycle); every word is compared by TLC with Wu's HC-128 written in paper form (Hc128.tla: W expansion, 1024 set-up steps, g1/g2/h1/h2, boxminus indices). distinct = distinct recorded events",
@@ -896,6 +922,7 @@ def check_C03(tier, seed):
     parts, nviol = [], 0
     for kind, salt in (("IsaacRng", 3), ("Isaac64Rng", 33)):
         S = corpora.block_alg_corpus(kind, seed, tier, 256, 10240 if tier != "quick" else 1024, salt)
+        panic_candidates(S, [kind], 3000 if tier == "quick" else 20000, "C03")
         ev, cs, res = run_trace("C03-" + kind, S, "Trace_Alg.tla", "Trace_Alg.cfg", weight=step_weight, timeout=3400)
         parts.append((ev, cs, res))
         nviol += report_rejections("C03", res["rejected"], S)
@@ -1152,6 +1179,68 @@ def parse_scheds(out):
     return res
 
 
+def c19_general_cases(seed, tier):
+    """Cases for the direct statement of C19: the events of an instance in an interleaved run (other instances on
+    other threads, unscripted background load) must be the events of the same operations run ALONE in a process of
+    their own - for any operation, not only stream outputs: jumps, clone, serde round trips, test_timer, constructors
+    after another instance's constructor failed.  Each case: {"label", "solo": {g: ops}, "inter": ops}."""
+    import random
+    rng = random.Random(seed * 1000003 + 1909)
+    cases = []
+
+    def merge(seqs, head=()):
+        """random merge of the per-instance op lists, alternating threads"""
+        seqs = {g: list(v) for g, v in seqs.items()}
+        out = list(head)
+        th = 1
+        while any(seqs.values()):
+            g = rng.choice([g for g, v in seqs.items() if v])
+            o = dict(seqs[g].pop(0))
+            if o["op"] not in ("timer", "src"):
+                o["th"] = th
+                th = 3 - th
+            out.append(o)
+        return out
+    # (a) jump-capable types, two instances whose states are related (identical / same low halves / same high halves)
+    for kind in corpora.XO_JUMP:
+        wb = corpora.WORDBYTES[kind]
+        L = corpora.SEEDLEN[kind]
+        base = [rng.getrandbits(8) | 1 for _ in range(L)]
+        variants = {"identical": list(base),
+                    "same low halves": [b if (i % wb) < wb // 2 else b ^ 0x5A for i, b in enumerate(base)],
+                    "same high halves": [b if (i % wb) >= wb // 2 else b ^ 0xA5 for i, b in enumerate(base)]}
+        for name, sd2 in (variants.items() if tier != "quick" else list(variants.items())[ord(kind[-1]) % 3:][:1] + [("same low halves", variants["same low halves"])]):
+            # the jumps come first: the relation between the two states holds at construction only
+            walk = [("jump", 0), ("next_u64", 0), ("long_jump", 0), ("next_u32", 0), ("fill_bytes", 9), ("jump", 0), ("next_u64", 0)] if name != "identical" else \
+                   [("next_u64", 0), ("jump", 0), ("next_u32", 0), ("long_jump", 0), ("next_u64", 0), ("fill_bytes", 9), ("long_jump", 0), ("next_u64", 0)]
+            solo = {}
+            for g, sd in ((1, base), (2, sd2)):
+                solo[g] = [{"op": "from_seed", "g": g, "kind": kind, "seed": sd}] + [corpora.opj(e, g) for e in walk]
+            cases.append({"label": "%s jumps, second state %s" % (kind, name), "solo": solo, "inter": merge(solo), "bg": [kind]})
+    # (b) a constructor of another instance fails (source error after a partial write) before / between
+    for kind in corpora.ALL_SEEDABLE:
+        n = corpora.FROMRNG_LEN.get(kind, corpora.SEEDLEN[kind])
+        good = [rng.getrandbits(8) | 1 for _ in range(2 * n)]
+        solo = {1: [{"op": "src", "s": 1, "bytes": good, "fallible": True}, {"op": "try_from_rng", "g": 1, "kind": kind, "s": 1},
+                    {"op": "next_u32", "g": 1}, {"op": "next_u64", "g": 1}, {"op": "fill_bytes", "g": 1, "n": 11}],
+                2: [{"op": "from_seed", "g": 2, "kind": kind, "seed": [0] * corpora.SEEDLEN[kind]}, {"op": "next_u64", "g": 2}, {"op": "next_u32", "g": 2}]}
+        bad = [{"op": "src", "s": 9, "bytes": [0xEE] * (2 * n), "fallible": True, "fail_at": 1, "partial": max(1, n - 3)},
+               {"op": "try_from_rng", "g": 9, "kind": kind, "s": 9, "th": 2}]
+        cases.append({"label": "%s constructed after another instance's try_from_rng failed" % kind, "solo": solo, "inter": merge(solo, head=bad), "bg": [kind]})
+    # (c) JitterRng::new() (process-wide cache) before the test_timer of an instance with a hopeless timer of its own
+    for style, step in (("constant step", [25]), ("multiples of 100", [100, 300, 200]), ("lively", None)):
+        t = rng.getrandbits(40) + 1
+        rd = []
+        for i in range(1700):
+            t += (step[i % len(step)] if step else rng.randrange(1, 1 << rng.choice([6, 10, 16])))
+            rd.append(t)
+        solo = {1: [{"op": "timer", "t": 1, "readings": [vlib.u64(x) for x in rd], "cont": corpora.CONT}, {"op": "jit_new", "g": 1, "t": 1},
+                    {"op": "test_timer", "g": 1}, {"op": "next_u32", "g": 1}]}
+        cases.append({"label": "JitterRng::new() elsewhere, then test_timer over a timer of its own (%s)" % style, "solo": solo,
+                      "inter": [{"op": "jit_std_new", "th": 2}] + merge(solo) + [{"op": "jit_std_new", "th": 1}], "bg": ["JitterRng"]})
+    return cases
+
+
 def check_C19(tier, seed):
     import subprocess
     t0 = time.time()
@@ -1230,8 +1319,66 @@ def check_C19(tier, seed):
     ev2, cs2, res2 = run_trace("C19b", S2, "Trace_Jitter.tla", "Trace_Jitter.cfg", weight=jit_weight)
     parts.append((ev2, cs2, res2))
     nviol += report_rejections("C19", res2["rejected"], S2)
-    cov = base_cov(parts, "TLC explores the instance machine (3 instances, 2 threads, every constructor / output interleaving, JitterRng::new()'s process-wide cache) and checks UsesOwnSeed, SoloResults, CacheOnlyAffectsNewStd and the frame property, with two negative controls (a process-wide and a thread-local seed cache); complete interleavings printed by TLC (2 instances x 3 outputs x thread assignments) are executed on persistent OS threads with instances moved between them, next to unscripted background threads hammering constructors of the same kinds (zero seeds, seed_from_u64(0)); every instance's outputs are validated by Trace_Stream against its own solo twin. distinct = distinct recorded events", ["Trace_Stream", "Trace_Jitter"])
-    cov["solo_runs_in_own_process"] = len(jobs)
+    # the direct statement, for arbitrary operations: interleaved events of an instance == its events when run alone
+    gcases = c19_general_cases(seed, tier)
+    general_all = {}
+    for with_bg in (True, False):       # with unscripted background load, and without (it can also MASK a one-entry cache)
+        gsched = [{"op": "reset"}]
+        for ci, c in enumerate(gcases):
+            gsched += [{"op": "reset", "label": c["label"], "id": ci}, {"op": "bg_start", "threads": 3 if with_bg else 0, "kinds": c["bg"]}] + c["inter"] + [{"op": "bg_stop"}]
+        sp, tp = os.path.join(swd, "gen.s"), os.path.join(swd, "gen.t")
+        vlib.write_ndjson(sp, gsched)
+        vlib.drive(binp, sp, tp)
+        inter_by_case = {}
+        cur = None
+        for e in vlib.read_ndjson(tp):
+            if e.get("e") == "reset":
+                cur = e.get("id")
+            elif cur is not None:
+                inter_by_case.setdefault(cur, []).append(e)
+
+        def solo2(job):
+            ci, g, sops = job
+            sp2, tp2 = os.path.join(swd, "gs_%d_%d.s" % (ci, g)), os.path.join(swd, "gs_%d_%d.t" % (ci, g))
+            vlib.write_ndjson(sp2, [{"op": "reset"}] + sops)
+            vlib.drive(binp, sp2, tp2)
+            return ci, g, [e for e in vlib.read_ndjson(tp2) if e.get("e") != "reset"]
+        gjobs = [(ci, g, sops) for ci, c in enumerate(gcases) for g, sops in c["solo"].items()]
+        A, B, index = [], [], []
+        with concurrent.futures.ThreadPoolExecutor(max_workers=12) as ex:
+            for ci, g, sev in ex.map(solo2, gjobs):
+                mine = [e for e in inter_by_case.get(ci, []) if (e.get("g") == g or (e.get("e") in ("src", "timer") and (e.get("s") == g or e.get("t") == g))) and e.get("e") not in ("bg_start", "bg_stop")]
+                mine = [e for e in mine if not (e.get("e") in ("src",) and e.get("s") != g)]
+                head = {"e": "reset", "op": "reset", "label": gcases[ci]["label"], "g": g}
+                A += [head] + sev
+                B += [head] + mine
+                index.append((ci, g, len(A)))
+        pa, pb = os.path.join(swd, "gA.t"), os.path.join(swd, "gB.t")
+        vlib.write_ndjson(pa, A)
+        vlib.write_ndjson(pb, B)
+        rs = vlib.run_tlc(os.path.join(vlib.SPEC, "trace", "Trace_Same.tla"), os.path.join(vlib.SPEC, "trace", "Trace_Same.cfg"), os.path.join(swd, "meta-gen"),
+                          env={"TRACE": pa, "TRACE2": pb}, timeout=1500, xmx="4g")
+        prs = vlib.parse_trace_result(rs, 0)
+        if prs["status"] == "error":
+            raise ToolError("Trace_Same failed on the solo / interleaved comparison:\n" + rs["out"][-2000:])
+        general = {"cases": len(gcases), "instances_compared": len(gjobs), "events_compared": rs["states"]}
+        if prs["status"] != "accepted":
+            at = prs["at"]
+            ci, g = next(((c, gg) for c, gg, end in index if at <= end), (None, None))
+            c = gcases[ci] if ci is not None else None
+            path = vlib.write_replay("C19", {"property": "C19", "case": c["label"] if c else "?", "signature": "solo-vs-interleaved|%s|g%s" % (c["label"] if c else "?", g),
+                                             "instance": g, "schedule_interleaved": [{"op": "reset"}, {"op": "bg_start", "threads": 3 if with_bg else 0, "kinds": c["bg"]}] + c["inter"] + [{"op": "bg_stop"}] if c else None,
+                                             "schedule_alone": [{"op": "reset"}] + c["solo"][g] if c else None,
+                                             "event_alone": A[at - 1] if 0 < at <= len(A) else None, "event_interleaved": B[at - 1] if 0 < at <= len(B) else None,
+                                             "how": "drive schedule_alone in a process of its own and schedule_interleaved in another; compare the events of the instance"})
+            print("VIOLATION property=C19 replay=%s" % path)
+            print("  instance %s of case %r behaves differently alone and interleaved: %s" % (g, c["label"] if c else "?", "; ".join(m[:400] for m in prs["mismatch"][:1])))
+            nviol += 1
+        general_all["with background load" if with_bg else "without background load"] = general
+    general = general_all
+    cov = base_cov(parts, "for arbitrary operations (jumps on related states, constructors after a failed constructor elsewhere, test_timer after JitterRng::new() elsewhere) the events of an instance in an interleaved run with background load must equal its events when run alone in its own process (Trace_Same). TLC explores the instance machine (3 instances, 2 threads, every constructor / output interleaving, JitterRng::new()'s process-wide cache) and checks UsesOwnSeed, SoloResults, CacheOnlyAffectsNewStd and the frame property, with two negative controls (a process-wide and a thread-local seed cache); complete interleavings printed by TLC (2 instances x 3 outputs x thread assignments) are executed on persistent OS threads with instances moved between them, next to unscripted background threads hammering constructors of the same kinds (zero seeds, seed_from_u64(0)); every instance's outputs are validated by Trace_Stream against its own solo twin. distinct = distinct recorded events", ["Trace_Stream", "Trace_Jitter"])
+    cov["solo_runs_in_own_process"] = len(jobs) + len(gjobs)
+    cov["solo_vs_interleaved_general"] = general
     cov["mc_model"] = {"states_generated": mc["states"], "distinct": mc["distinct"], "interleavings_enumerated_by_TLC": len(scheds),
                        "interleavings_executed": len(S.cases), "negative_controls": ["LeakMode=global", "LeakMode=threadlocal"]}
     cov["send_sync_static_assertion_compiles"] = sendsync_ok
@@ -1694,28 +1841,42 @@ def check_C07(tier, seed):
     events, cases, tres = run_trace("C07", S, "Trace_Alg.tla", "Trace_Alg.cfg")
     nviol, notes, decided = 0, [], {}
     by_id = {c["id"]: c for c in S.cases}
-    kinds_off = sorted({tuple(by_id[r["case"]]["label"].split(" ")[:2]) for r in tres["rejected"] if r["case"] in by_id})
     binp = vlib.build_harness()
-    for kp in kinds_off:
-        # the map this path applies to the state is not the reference engine (power): decide C07 on the code's own matrix
-        kind0, path = kp
-        kind = "%s/%s" % kp
-        kevents = [ev for cid, evs in cases if cid in by_id and tuple(by_id[cid]["label"].split(" ")[:2]) == kp for ev in evs]
-        ex = extract_matrix(kevents, kind0)
-        if ex is None:
-            decided[kind] = ("undecided", {"why": "the transition matrix could not be extracted (from_seed does not yield the unit states, or no state image)"})
-        else:
-            decided[kind] = decide_extracted(wd, kind0, ex[0], ex[1], ex[2], binp)
-        verdict, detail = decided[kind]
-        if verdict == "violated":
-            nviol += 1
-            path = vlib.write_replay("C07", {"property": "C07", "case": "engine of " + kind, "signature": "period|" + kind,
-                                             "schedule": detail.get("schedule"), "detail": detail,
-                                             "how": "tools/vcheck C07 re-extracts the transition matrix of the code and re-checks the certificate"})
-            print("VIOLATION property=C07 replay=%s" % path)
-            print("  %s: %s" % (kind, detail["why"][:400]))
-        else:
-            print("NOTE property=C07 %s: state map differs from the reference; C07 %s: %s" % (kind, verdict, detail["why"][:300]))
+
+    def decide_paths(cases_, tres_, by_id_, binp_, build):
+        """every (type, path) with a rejected case: the map this path applies to the state is not the reference engine
+        (power) in this build; decide C07 on the code's own matrix"""
+        nv = 0
+        off = sorted({tuple(by_id_[r["case"]]["label"].split(" ")[:2]) for r in tres_["rejected"] if r["case"] in by_id_})
+        for kp in off:
+            kind0, path = kp
+            kind = "%s/%s%s" % (kp[0], kp[1], build)
+            kevents = [ev for cid, evs in cases_ if cid in by_id_ and tuple(by_id_[cid]["label"].split(" ")[:2]) == kp for ev in evs]
+            ex = extract_matrix(kevents, kind0)
+            if ex is None:
+                decided[kind] = ("undecided", {"why": "the transition matrix could not be extracted (from_seed does not yield the unit states, or no state image)"})
+            else:
+                decided[kind] = decide_extracted(wd, kind0, ex[0], ex[1], ex[2], binp_)
+            verdict, detail = decided[kind]
+            if verdict == "violated":
+                nv += 1
+                path = vlib.write_replay("C07", {"property": "C07", "case": "engine of " + kind, "signature": "period|" + kind,
+                                                 "schedule": detail.get("schedule"), "detail": detail, "build": build or "dev",
+                                                 "how": "tools/vcheck C07 re-extracts the transition matrix of the code and re-checks the certificate"})
+                print("VIOLATION property=C07 replay=%s" % path)
+                print("  %s: %s" % (kind, detail["why"][:400]))
+            else:
+                print("NOTE property=C07 %s: state map differs from the reference; C07 %s: %s" % (kind, verdict, detail["why"][:300]))
+        return nv, off
+    nv, kinds_off = decide_paths(cases, tres, by_id, binp, "")
+    nviol += nv
+    # the same binding in the optimised build (no overflow checks, no debug assertions) for the short paths: the
+    # property is about the generator, not about one build profile
+    Srel = vlib.Sched()
+    Srel.cases = [c for c in S.cases if c["label"].split(" ")[1] in ("native", "other", "fill8")]
+    ev_r, cases_r, tres_r = run_trace("C07-release", Srel, "Trace_Alg.tla", "Trace_Alg.cfg", profile="release")
+    nv, kinds_off_rel = decide_paths(cases_r, tres_r, {c["id"]: c for c in Srel.cases}, vlib.build_harness("release", True), " (release build)")
+    nviol += nv
     # a step that is not injective: two different recorded states with the same recorded successor.  The pair is
     # replayed on the code and the equality of the two successors is confirmed by TLC (ALG_Confirm on the images)
     collisions = 0
@@ -1754,11 +1915,12 @@ def check_C07(tier, seed):
                         print("VIOLATION property=C07 replay=%s" % path2)
                         print("  %s/%s: the states with seeds %s and %s have the same successor" % (kp[0], kp[1], bytes(seen[key][1]).hex(), bytes(cur[1]).hex()))
                 seen.setdefault(key, cur)
-    cov = base_cov([(events, cases, tres)], "(1) for each of the 7 distinct linear engines TLC checks the certificate: Krylov rank n and P(T)e0 = 0 (so GF(2)[x]/P -> V, f |-> f(T)e0 is an isomorphism carrying x to T), x^(2^n) = x, the listed primes multiply to 2^n - 1, and for every prime q: cofactor*q = 2^n - 1 and x^cofactor # 1 - so x has order exactly 2^n - 1, GF(2)[x]/P is a field and T is a bijection permuting the 2^n - 1 non-zero states in a single cycle; (2) for every one of the 15 linear generator types and every path that advances the state (the native call, the other next_*, fill_bytes(8), fill_bytes(64), fill_bytes(200), fill_bytes(1028)) the transition matrix is extracted from the real code on the complete basis of unit-bit seeds (plus random seeds for linearity) and validated by TLC against the specification's T^k (k = words consumed); (3) if a type's matrix differs from the reference, the same certificate is run on the extracted matrix and a violation is reported only with a certificate (a non-zero state stepping to zero, replayed on the code; or T^((2^n-1)/q) = I; or T^(2^n-1) # I). distinct = distinct recorded events", ["Trace_Alg", "ALG_Engine"])
+    cov = base_cov([(events, cases, tres), (ev_r, cases_r, tres_r)], "(1) for each of the 7 distinct linear engines TLC checks the certificate: Krylov rank n and P(T)e0 = 0 (so GF(2)[x]/P -> V, f |-> f(T)e0 is an isomorphism carrying x to T), x^(2^n) = x, the listed primes multiply to 2^n - 1, and for every prime q: cofactor*q = 2^n - 1 and x^cofactor # 1 - so x has order exactly 2^n - 1, GF(2)[x]/P is a field and T is a bijection permuting the 2^n - 1 non-zero states in a single cycle; (2) for every one of the 15 linear generator types and every path that advances the state (the native call, the other next_*, fill_bytes(8), fill_bytes(64), fill_bytes(200), fill_bytes(1028)) the transition matrix is extracted from the real code on the complete basis of unit-bit seeds (plus random seeds for linearity) and validated by TLC against the specification's T^k (k = words consumed); (3) if a type's matrix differs from the reference, the same certificate is run on the extracted matrix and a violation is reported only with a certificate (a non-zero state stepping to zero, replayed on the code; or T^((2^n-1)/q) = I; or T^(2^n-1) # I). distinct = distinct recorded events", ["Trace_Alg", "ALG_Engine"])
     cov["certificates"] = {"%s:%s" % k: {"verified": v[0], "tlc_wall_s": round(v[2], 1), "result": v[1][:160]} for k, v in sorted(res.items(), key=lambda kv: str(kv[0]))}
     cov["obligations"] = len(tasks)
     cov["discharged"] = len(tasks)
-    cov["type_paths_whose_matrix_equals_the_reference"] = 3 * len(corpora.LINEAR) - len(kinds_off)
+    cov["type_paths_whose_matrix_equals_the_reference"] = len(C07_PATHS) * len(corpora.LINEAR) - len(kinds_off)
+    cov["type_paths_off_in_the_release_build"] = len(kinds_off_rel)
     cov["types_decided_on_their_own_matrix"] = {k: v[0] for k, v in decided.items()}
     cov["non_injective_steps_confirmed"] = collisions
     cov["exhaustive"] = True
